@@ -1,7 +1,7 @@
 (* C10 - Version negotiation yields one msize that both ends then honour.
    Statements only; proofs in Proofs/VersionProofs.v (and ChannelProofs/ChannelRead for clause 5). *)
 From Coq Require Import List NArith ZArith Bool.
-From P9 Require Import Base.Res Base.Bytes Model.WireTypes Model.Spec9P Model.Wire Model.Channel Model.Version
+From P9 Require Import Base.Res Base.Bytes Model.WireTypes Model.Spec9P Model.Wire Model.Channel Model.Version Gen.GenConsts
   Proofs.WireDecode Proofs.ChannelProofs Proofs.ChannelRead Proofs.VersionProofs.
 Import ListNotations.
 Open Scope N_scope.
@@ -60,6 +60,12 @@ Theorem C10_honour_in : forall m body f, 24 <= m -> m < M32 - 12 -> len body + 4
   (exists f', classify m m body = RMsg f') /\ (forall k body', 0 < k -> classify m (m + k) body' = ROverflow k).
 Proof. exact honour_in. Qed.
 Print Assumptions C10_honour_in.
+
+(* the constants the models use are those of the CURRENT source (regenerated on every run) *)
+Theorem C10_constants :
+  c_channelMessageHeaderSize = 4 /\ c_NOTAG = NOTAG /\ c_DefaultMSize = 65536 /\ s_DefaultVersion = V9P2000 /\ c_NOFID = 4294967295.
+Proof. repeat split; reflexivity. Qed.
+Print Assumptions C10_constants.
 
 (* non-vacuity *)
 Example C10_agree_example :
